@@ -79,6 +79,11 @@ def main(tier):
         cases.append({"seed": 17 + k, "dtype": dt_, "weights": wq_, "activations": aq_, "filter": None, "variants": [0], "directed": "tied",
                       "tree": {"t": "block", "ch": [["embed", {"t": "emb", "n": 24, "d": 16, "key": "e"}], ["body", {"t": "seq", "ch": [{"t": "linear", "in": 16, "out": 16, "bias": True}, {"t": "relu"}]}],
                                                     ["head", {"t": "linear", "in": 16, "out": 24, "bias": False, "tie_weight_to": "e"}]]}})
+    # directed: weights-only 8-bit convolutions / linears in half precision (frozen and on large-magnitude inputs in the worker)
+    for k, (wq_, dt_) in enumerate([("qint8", "float16"), ("qfloat8", "float16"), ("qint8", "bfloat16"), ("qfloat8_e5m2", "float16")]):
+        cases.append({"seed": 70 + k, "dtype": dt_, "weights": wq_, "activations": None, "filter": None, "variants": [0, 2], "directed": "weights-only-half",
+                      "tree": {"t": "seq", "ch": [{"t": "conv", "cin": 4, "cout": 4, "k": 3, "stride": 1, "padding": 1, "dilation": 1, "groups": 1, "bias": True, "padding_mode": "zeros"},
+                                                  {"t": "relu"}, {"t": "conv", "cin": 4, "cout": 2, "k": 1, "stride": 1, "padding": 0, "dilation": 1, "groups": 1, "bias": False, "padding_mode": "zeros"}]}})
     # directed: LayerNorm without affine parameters, with quantized activations
     cases.append({"seed": 15, "dtype": "float32", "weights": "qint8", "activations": "qint8", "filter": None, "variants": [0, 1], "directed": "ln-no-affine",
                   "tree": {"t": "seq", "ch": [{"t": "ln", "shape": [8], "affine": False, "bias": False, "eps": 1e-5}, {"t": "linear", "in": 8, "out": 4, "bias": True}]}})
@@ -207,6 +212,9 @@ def main(tier):
                 ck.violation(f"quantized linear, float16 model: the float16 product of the activation and weight scales is subnormal ({t['scale_prod_exact_min']:.3g}), output off by {t['ratio']:.3g}x the bound", tctx)
             elif t["ratio"] > 1.0:
                 ck.violation(f"quantized {kind} output differs from its float twin (dequantized weight, {t['input_mode']} input) beyond rounding: {t['ratio']:.3g}x the bound", tctx)
+            for tag_, what_ in (("frozen_ratio", "the same input"), ("frozen_big_ratio", "a large-magnitude input (x200)")):
+                if t.get(tag_, 0) > 1.0:
+                    ck.violation(f"frozen quantized {kind} (weights {c['weights']}, no activations, {c['dtype']}) on {what_} differs from its float twin beyond rounding: {t[tag_]:.3g}x the bound", tctx)
             if not t["dtype_ok"]:
                 ck.violation(f"quantized {kind} output dtype differs from the module dtype", tctx)
             if c["activations"] is not None:
